@@ -24,7 +24,10 @@ def to_sympy(e, var, x):
     if isinstance(e, ast.Constant) and isinstance(e.value, (int, float)):
         return sp.nsimplify(e.value, rational=True)
     if isinstance(e, ast.Name):
-        if e.id == var:
+        if isinstance(var, dict):
+            if e.id in var:
+                return var[e.id]
+        elif e.id == var:
             return x
         if e.id == 'pi':
             return sp.pi
@@ -43,6 +46,8 @@ def to_sympy(e, var, x):
         name = e.func.attr if isinstance(e.func, ast.Attribute) else getattr(e.func, 'id', None)
         if name in FUN and len(e.args) >= 1:
             return FUN[name](to_sympy(e.args[0], var, x))
+        if name in ('array', 'asarray', 'asanyarray', 'float', 'atleast_1d', 'copy') and len(e.args) >= 1:
+            return to_sympy(e.args[0], var, x)       # value-preserving conversions
     raise AnalysisError('closed form: unsupported %s' % normalise(e))
 
 
@@ -51,9 +56,27 @@ def closed_form(prog, name):
     rets = [n for n in ast.walk(f.node) if isinstance(n, ast.Return)]
     if len(rets) != 1:
         raise AnalysisError('%s: expected a single return' % name)
-    var = f.node.args.args[0].arg
     x = sp.Symbol('x', real=True)
-    return f, to_sympy(rets[0].value, var, x), x
+    env = {f.node.args.args[0].arg: x}
+    # straight-line symbolic evaluation: assignments and augmented assignments before the return are part of the closed form
+    for s in f.node.body:
+        if isinstance(s, ast.Return):
+            return f, to_sympy(s.value, env, x), x
+        if isinstance(s, ast.Expr) and isinstance(s.value, ast.Constant):
+            continue
+        if isinstance(s, ast.Assign) and len(s.targets) == 1 and isinstance(s.targets[0], ast.Name):
+            env[s.targets[0].id] = to_sympy(s.value, env, x)
+            continue
+        if isinstance(s, ast.AugAssign) and isinstance(s.target, ast.Name) and s.target.id in env:
+            b = ast.BinOp(left=ast.Name(id=s.target.id, ctx=ast.Load()), op=s.op, right=s.value)
+            env[s.target.id] = to_sympy(b, env, x)
+            continue
+        if isinstance(s, ast.If) and all(isinstance(b, ast.Raise) for b in s.body) and not s.orelse:
+            continue        # domain guard (decided by the guard rule)
+        if isinstance(s, ast.Assert):
+            continue
+        raise AnalysisError('%s: closed form: unsupported statement %s' % (name, normalise(s)[:60]))
+    raise AnalysisError('%s: closed form: no return at top level' % name)
 
 
 def undo_inverse_pairs(e):
@@ -238,6 +261,9 @@ def run(prog, rep, tier='quick'):
             rep.violation('lsf-siblings', f1.qname, '%s order, %s' % key, 'lsf2poly multiplies %s by %s but poly2lsf divides it by %s: the '
                           'two conversions are not inverse for this parity' % (key[1], a1.get(key), a2.get(key)), loc(f1.mod, f1.node))
     rep.floor('closed-form compositions', n_cf, 4)
+    # abstract runs of the element-wise converters on a real ndarray: their writes are examined by the D8 rule (d8rules.py)
+    for name in ('rc2lar', 'lar2rc', 'rc2is', 'is2rc'):
+        C.run_function(prog, 'linear_prediction', name, [C.data(False, phase=False, label='k')])
     rep.floor('covariance-typed converters', n_cov, 5)
     rep.floor('wiring obligations', n_w, 5)
     rep.floor('lsf sibling rows', n_l, 3)
